@@ -41,7 +41,12 @@ def plan_runs(prop, scenario, flags, ts, cfg):
         return [dict(base, graph="D", name="triples-deleted"), dict(base, graph="D", name="namespaces_to_ignore", real_graph="G", e2e_only=True,
                                                                     real_extra={"namespaces_to_ignore": [T.IGNORED_NS]})]
     if scenario == "permuted":       # the same graph with its statements in another order
-        return [dict(base, name="document-order"), dict(base, graph="P", name="permuted-order")]
+        runs = [dict(base, name="document-order"), dict(base, graph="P", name="permuted-order")]
+        if cfg.get("real_context"):   # options outside the stage switched on for both real runs (judged on the real outputs)
+            for r in runs:
+                r["real_extra"] = dict(cfg["real_context"])
+                r["e2e_only"] = True
+        return runs
     if scenario == "inverse3":
         f_inv = dict(flags, inverse_paths=True)
         f_dir = dict(flags, inverse_paths=False)
